@@ -8,7 +8,9 @@ is read:
   * neutral variants - behaviour-preserving rewrites (ast.unparse round trip of
     every module: all positions, quoting and comments change; `pass` and docstring
     insertion in every function); the check must give the same verdict as on the
-    unchanged tree.  A third variant renames every non-parameter local variable of
+    unchanged tree.  A third variant inserts a logging call at the start of every function, loop
+    and if body (logging calls are total for the CFG and neutral for block-shape
+    rules).  A fourth variant renames every non-parameter local variable of
     every function without nested scopes: there the check may also fail closed
     (exit 2, "anchor vanished") but must never report a violation
 The self-test never influences the verdict on /repo; if it fails, the run ends
@@ -291,6 +293,33 @@ class _PassInserter(ast.NodeTransformer):
     visit_AsyncFunctionDef = _visit_fn
 
 
+class _LogInserter(ast.NodeTransformer):
+    """Inserts a logging call at the start of every function body, loop body and if-body."""
+
+    @staticmethod
+    def _mk():
+        return ast.parse("__import__('logging').getLogger('jv').debug('trace')").body[0]
+
+    def _visit_fn(self, node):
+        self.generic_visit(node)
+        body = node.body
+        i = 1 if body and isinstance(body[0], ast.Expr) and isinstance(body[0].value, ast.Constant) and isinstance(body[0].value.value, str) else 0
+        node.body = body[:i] + [self._mk()] + body[i:]
+        return node
+
+    visit_FunctionDef = _visit_fn
+    visit_AsyncFunctionDef = _visit_fn
+
+    def _visit_block(self, node):
+        self.generic_visit(node)
+        node.body = [self._mk()] + node.body
+        return node
+
+    visit_For = _visit_block
+    visit_While = _visit_block
+    visit_If = _visit_block
+
+
 class _LocalRenamer(ast.NodeTransformer):
     """Renames the local variables (not the parameters) of every function that has no nested function,
     lambda or class, appending `_r`.  Names that are also comprehension targets, declared global/nonlocal,
@@ -349,6 +378,8 @@ def _neutral(prop: str, kind: str, base_rc: int, base_lines: List[str]) -> dict:
                 tree = ast.fix_missing_locations(_PassInserter().visit(tree))
             if kind == "rename-locals":
                 tree = ast.fix_missing_locations(_LocalRenamer().visit(tree))
+            if kind == "unparse+log":
+                tree = ast.fix_missing_locations(_LogInserter().visit(tree))
             txt = ast.unparse(tree)
             compile(txt, p, "exec")
             with open(p, "w") as f:
@@ -376,7 +407,7 @@ def run_for_property(prop: str, ctx_rc: int = 0) -> dict:
     jobs = int(os.environ.get("JV_JOBS", "16"))
     with ThreadPoolExecutor(max_workers=jobs) as ex:
         mfut = [ex.submit(_mutant, prop, m) for m in muts] + [ex.submit(_seed_mutant, prop, s) for s in _seeded_for(prop)]
-        nfut = [ex.submit(_neutral, prop, k, base_rc, base_lines) for k in ("unparse", "unparse+pass", "rename-locals")]
+        nfut = [ex.submit(_neutral, prop, k, base_rc, base_lines) for k in ("unparse", "unparse+pass", "unparse+log", "rename-locals")]
         mres = [f.result() for f in mfut]
         nres = [f.result() for f in nfut]
     summary = {
